@@ -26,7 +26,30 @@ Inductive c30_case :=
 | Inc (l : side) (sols : list sol) (a' b' pid ctx : bytes) (emitted : list Z)
 (* two controllers joined by one link; observed: for each side the directive
    indices that received a value (one entry per value) *)
-| Two (la : side) (sa : list sol) (lb : side) (sb : list sol) (ra rb : list Z).
+| Two (la : side) (sa : list sol) (lb : side) (sb : list sol) (ra rb : list Z)
+(* link lifecycle between two controllers with fixed solicitation sets: links come
+   up, go down, come up again (same uuid) or in parallel; observed at every
+   Settle: the directive indices that received a NEW value, per side *)
+| Life (sa sb : list sol) (acts : list laction) (newa newb : list (list Z)).
+
+Fixpoint life_obs (sa sb : list sol) (ls : lstate) (acts : list laction) : list (list Z) * list (list Z) :=
+  match acts with
+  | [] => ([], [])
+  | a :: rest =>
+      let (ls', o) := lstep sa sb ls a in
+      let (ra, rb) := life_obs sa sb ls' rest in
+      match a with
+      | Settle => (zidx (flat_map (fun x => fst (snd x)) o) :: ra, zidx (flat_map (fun x => snd (snd x)) o) :: rb)
+      | _ => (ra, rb)
+      end
+  end.
+
+Fixpoint all_same_counts (n : nat) (a b : list (list Z)) : bool :=
+  match a, b with
+  | [], [] => true
+  | x :: a', y :: b' => same_counts n x y && all_same_counts n a' b'
+  | _, _ => false
+  end.
 
 Definition c30_agree (c : c30_case) : bool :=
   match c with
@@ -40,6 +63,10 @@ Definition c30_agree (c : c30_case) : bool :=
       negb (fits_one_exchange sa && fits_one_exchange sb) ||
       same_counts (length sa) (zidx (receivers la sa lb sb)) ra &&
       same_counts (length sb) (zidx (receivers lb sb la sa)) rb
+  | Life sa sb acts newa newb =>
+      negb (fits_one_exchange sa && fits_one_exchange sb) ||
+      let (ra, rb) := life_obs sa sb [] acts in
+      all_same_counts (length sa) ra newa && all_same_counts (length sb) rb newb
   end.
 
 (* ---------- C31 ---------- *)
